@@ -322,7 +322,8 @@ fn reconnect_scenario(ty: Ty, observed: bool, policy: u8) -> Verdict {
 /// Peers are lost (their writes fail, so the socket notices through a failing send) and sends go on:
 /// a send to a surviving peer must put exactly the message's encoding on that wire, and once nobody
 /// is left the send must hand the message back intact.
-fn loss_scenario(ty: Ty, peers: usize, policy: u8) -> Verdict {
+fn loss_scenario(ty: Ty, peers: usize, policy: u8, kind: u8) -> Verdict {
+    let ek = [std::io::ErrorKind::BrokenPipe, std::io::ErrorKind::ConnectionReset, std::io::ErrorKind::TimedOut][kind as usize % 3];
     world::reset(world::WorldCfg { nested_env: false, yields: true, select: false, policy, coop: false });
     let conns: Vec<e3::RawConn> = (0..peers).map(|p| e3::raw_conn(&format!("P{}", p))).collect();
     for (p, c) in conns.iter().enumerate() {
@@ -345,7 +346,7 @@ fn loss_scenario(ty: Ty, peers: usize, policy: u8) -> Verdict {
         // kill the peers one after the other, sending a few messages after each loss
         for kill in 0..=conns2.len() {
             if kill > 0 {
-                world::set_wmode(conns2[kill - 1].from_lib, WMode::Fail(std::io::ErrorKind::BrokenPipe));
+                world::set_wmode(conns2[kill - 1].from_lib, WMode::Fail(ek));
                 alive[kill - 1] = false;
             }
             let n_alive = alive.iter().filter(|a| **a).count();
@@ -415,7 +416,7 @@ fn loss_scenario(ty: Ty, peers: usize, policy: u8) -> Verdict {
     let end = world::run(e3::HORIZON);
     let mut v = Verdict::default();
     v.truncated = end != world::RunEnd::Quiescent;
-    let what = format!("{} with {} peers that die one after the other (failing writes)", ty.name(), peers);
+    let what = format!("{} with {} peers that die one after the other (writes failing with {:?})", ty.name(), peers, ek);
     for p in world::panics() {
         v.violate("panic", format!("{}: {}", what, p));
     }
@@ -610,8 +611,8 @@ pub fn run(tier: Tier, replay: Option<String>) -> i32 {
                 return Some(std::sync::Arc::new(move || cancel_scenario(ty, n, sh, how, pol)) as zvcore::explore::Scenario);
             }
             if p["scenario"] == "loss" {
-                let (ty, n, pol) = (Ty::from_name(p["type"].as_str()?)?, p["peers"].as_u64()? as usize, p["policy"].as_u64()? as u8);
-                return Some(std::sync::Arc::new(move || loss_scenario(ty, n, pol)) as zvcore::explore::Scenario);
+                let (ty, n, pol, kind) = (Ty::from_name(p["type"].as_str()?)?, p["peers"].as_u64()? as usize, p["policy"].as_u64()? as u8, p["kind"].as_u64().unwrap_or(0) as u8);
+                return Some(std::sync::Arc::new(move || loss_scenario(ty, n, pol, kind)) as zvcore::explore::Scenario);
             }
             let pr = pf(p)?;
             Some(std::sync::Arc::new(move || scenario(&pr)) as zvcore::explore::Scenario)
@@ -666,7 +667,9 @@ pub fn run(tier: Tier, replay: Option<String>) -> i32 {
     for ty in [Ty::Push, Ty::Dealer, Ty::Req] {
         for peers in 1..=3usize {
             for policy in 0..3u8 {
-                jobs.push(e3::job(format!("C10/loss/{}/{}p/policy{}", ty.name(), peers, policy), json!({"scenario":"loss","type":ty.name(),"peers":peers,"policy":policy}), tier.pick(1, 2), 100_000, move || loss_scenario(ty, peers, policy)));
+                for kind in 0..3u8 {
+                    jobs.push(e3::job(format!("C10/loss/{}/{}p/policy{}/kind{}", ty.name(), peers, policy, kind), json!({"scenario":"loss","type":ty.name(),"peers":peers,"policy":policy,"kind":kind}), tier.pick(1, 2), 100_000, move || loss_scenario(ty, peers, policy, kind)));
+                }
             }
         }
     }
